@@ -170,6 +170,11 @@ class Pipeline(Machine):
         for j in range(op["direct"]):
             alg = s.choice(gen.DIGEST_ALGS)
             d = s.bytes(gen.DIGEST_LEN[alg])
+            r = s.below(6)
+            if r == 0:
+                d = b"\x00" + d[1:]  # leading zero byte
+            elif r == 1:
+                d = d[:-1] + s.choice([b"\x00", b"\n", b" "])  # trailing zero / newline / space
             model["direct_d"][f"dg{j}"] = d
             host.write(f"files/dg{j}.bin", d)
             v = s.choice([0, 23, 24, 65536, 12345678])
